@@ -316,7 +316,7 @@ func checkNudge(c *Ctx, r *Report) {
 // ---- sampling ----
 
 func checkSampleGrid(c *Ctx, r *Report) {
-	r.Rule("M-SAMPLE", "DefaultGridSampler.SampleGridWithTransform: every image.Get(px, py) is reached only after checkAndNudgePoints succeeded on the transformed row and after a guard that exits for px >= width or py >= height; the points fed to the transform are (x+0.5, y+0.5) and cell (x, y) receives the pixel read for pair x", 4)
+	r.Rule("M-SAMPLE", "DefaultGridSampler.SampleGridWithTransform: every image.Get(px, py) is reached only after checkAndNudgePoints succeeded on the transformed row and after a guard that exits for px >= width or py >= height; the points fed to the transform are (x+0.5, y+0.5), the slice that is transformed is the one that is checked and the one the pixel coordinates are read from, and cell (x, y) receives the pixel read for pair x", 5)
 	fd, p := c.funcDeclOf("common", "DefaultGridSampler.SampleGridWithTransform")
 	key := "common.DefaultGridSampler.SampleGridWithTransform"
 	if fd == nil {
@@ -359,6 +359,40 @@ func checkSampleGrid(c *Ctx, r *Report) {
 		}
 	}
 	r.Check(okNudge, "M-SAMPLE", key+".nudge-dominates", c.pos(get.Pos()), "the sampling read is not dominated by a successful GridSampler_checkAndNudgePoints (error -> return)")
+	// (a') what is checked and nudged is the whole row of transformed points: the very slice handed to TransformPoints
+	// and read back for the pixel coordinates, not a copy or a part of it
+	{
+		var nudged, transformed types.Object
+		for _, call := range findCalls(p, fd.Body, func(o types.Object) bool { return isFuncNamed(o, "common", "GridSampler_checkAndNudgePoints") }) {
+			if len(call.Args) == 2 {
+				nudged = identObj(p, call.Args[1])
+			}
+		}
+		for _, call := range findCalls(p, fd.Body, func(o types.Object) bool { return isMethodNamed(o, "common", "PerspectiveTransform", "TransformPoints") }) {
+			if len(call.Args) == 1 {
+				transformed = identObj(p, call.Args[0])
+			}
+		}
+		readsFrom := map[types.Object]bool{}
+		for _, a := range get.Args {
+			o := identObj(p, a)
+			if o == nil {
+				continue
+			}
+			if def := singleDef(p, fd, o); def != nil {
+				ast.Inspect(def, func(n ast.Node) bool {
+					if ix, ok := n.(*ast.IndexExpr); ok {
+						if b := identObj(p, ix.X); b != nil {
+							readsFrom[b] = true
+						}
+					}
+					return true
+				})
+			}
+		}
+		okSlice := nudged != nil && nudged == transformed && len(readsFrom) == 1 && readsFrom[nudged]
+		r.Check(okSlice, "M-SAMPLE", key+".nudged-slice", c.pos(get.Pos()), "checkAndNudgePoints must be given the whole slice of transformed points that the pixel coordinates are then read from (a row whose interior points lie just outside the image is pulled in point by point)")
+	}
 	// (b) upper-bound guard: for every (px,py) with px>=W or py>=H some early exit fires
 	pxE, pyE := get.Args[0], get.Args[1]
 	pxO, pyO := identObj(p, pxE), identObj(p, pyE)
